@@ -37,10 +37,14 @@ CONTROLS = [
     # round 3: the generated __eq__ without its "self is other" exit: an object that holds a
     # value which is not == itself (float NaN) directly in a field is not == itself
     ("Buggy_NoIdentityPath", "invariant", "EqIsPyEq"),
+    # round 4: the generated functions take their field list from the positional constructor
+    # parameters: keyword-only / init=False fields drop out of ==, hash and copies
+    ("Buggy_KwDropped", "invariant", "EqIsPyEq"),
+    ("Buggy_KwDropped_copy", "invariant", "CopyFaithful"),
 ]
 # the quick tier runs one control per Bug switch (the machine-wide TLC slots are scarce)
 THOROUGH_ONLY = {"Buggy_DropField_dict", "Buggy_StaleHash_eq", "Buggy_ClassMemo_dict",
-                 "Buggy_PickleKeepsHash_dict"}
+                 "Buggy_PickleKeepsHash_dict", "Buggy_KwDropped_copy"}
 
 
 def _side_runs(tier):
@@ -180,6 +184,16 @@ def _corruption_control(recs, wd):
     if r:
         r["evs"][n]["r"]["proj"][1]["h"] = {"t": "H", "id": 98}
         bad.append((r, "HashRespectsEq|HashStable"))
+    # a copy that lost a field of its original
+    r, n = find(lambda r, n, e: e["ev"]["op"] == "Copy" and e["r"]["k"] == "new"
+                and r["trees"][e["r"]["proj"][-1]["tr"] - 1]["f"])
+    if r:
+        q = r["evs"][n]["r"]["proj"][-1]
+        t = copy.deepcopy(r["trees"][q["tr"] - 1])
+        t["f"][-1] = {"t": "Missing"}
+        r["trees"].append(t)
+        q["tr"] = len(r["trees"])
+        bad.append((r, "CopyKeepsFields"))
     base = [r["id"] for r, _ in bad]
     for k, (r, _) in enumerate(bad):
         r["id"] = k
@@ -273,7 +287,7 @@ def run(tier, seed, out):
                     "trees": r["trees"]} for r in pick]
     pairs_txt = ("every near pair (each catalogue member with its separately built twin, with its "
                  "family's base instance and with its next two neighbours) x every history of length 2 "
-                 "over the pair alphabet {Eq12, Eq21, Hash2, Put1, Get2}; 14 representative pairs + 3 "
+                 "over the pair alphabet {Eq12, Eq21, Hash2, Put1, Get2}; 16 representative pairs + 3 "
                  "triples x every history of length 2 over the full alphabet (~34 operations); 20 tuples "
                  "over three-level class hierarchies (ancestor instances + two leaf instances) x every "
                  "history of length 2 over hash/==/dict put/dict get on every object (every order of first "
@@ -284,17 +298,19 @@ def run(tier, seed, out):
                  "hold a float NaN (a value not == itself: directly in a field of built-in / user / "
                  "legacy classes, in a tuple field, below other nodes) x every history of length 2 over "
                  "the self alphabet (== / != with ITSELF, hash, dict put / get of itself, copy / "
-                 "deepcopy / pickle copy / mappers and the same on the results)"
+                 "deepcopy / pickle copy / mappers and the same on the results), the same for 7 single "
+                 "objects of user dataclass nodes with a keyword-only field (with / without default, "
+                 "below CommonSubexpression) or a field(init=False) field"
                  if tier == "quick" else
                  "every unordered pair inside each catalogue family x every history of length 2, every "
                  "near pair x every history of length 3 over the pair alphabet; 24 representative pairs "
-                 "+ 8 triples x every history of length 2 over the full alphabet; 20 class-hierarchy "
+                 "+ 8 triples x every history of length 2 over the full alphabet (28 pairs since round 4); 20 class-hierarchy "
                  "tuples x every history of length 3 over hash/==/put/get on every object; cross-"
                  "interpreter arrival (4 ways) of every twin pair x 2 operations, every near pair x 1, "
                  "28 representative pairs x 2; every catalogue member alone x every history of length 2 "
                  "over the self alphabet (== / != with itself, hash, dict put / get of itself, copies, "
                  "mappers, the same on the results), the 21 NaN-holding members x length 3")
-    out.rule = ("TLC enumerates (C01_Gen over the 297-object catalogue in 24 families): " + pairs_txt +
+    out.rule = ("TLC enumerates (C01_Gen over the 326-object catalogue in 27 families): " + pairs_txt +
                 "; plus seeded -simulate random walks of 8 operations from any family pair/triple. "
                 "A case is one history (New events + operations), replayed on fresh objects; "
                 "non-trivial = at least one operation after construction; distinct by canonical JSON "
@@ -317,7 +333,10 @@ def run(tier, seed, out):
     out.assumptions += [
         "CPython semantics of ==/hash on tuples, numbers, str, mappings as transcribed in C01_Values.tla",
         "default interpreter mode (__debug__ true); python -O is out of scope as the statement says",
-        "bounded: catalogue of 297 object specifications in 24 families, histories of the stated lengths",
+        "bounded: catalogue of 326 object specifications in 27 families, histories of the stated lengths",
+        "a copy (copy.copy / copy.deepcopy / pickle round trip in the same process) that comes to be is "
+        "judged: same class, every field present and == the original's (CopyKeepsFields); a pickle that "
+        "fails is SKIP (C17)",
         "cross-interpreter arrival: only ==/hash/dict behaviour of the unpickled object is judged here, "
         "whether and how faithfully an expression pickles is C17 (a failed pickle is SKIP)",
         "float NaN constants are in the model with the identity of the float object (three-valued "
